@@ -136,22 +136,20 @@ class IfWriteHandler(AbstractWriteHandler):
         if op.op_code.name == "Branch":
             return f"{op.params[0]} {SsbOperator.EQ.notation} {op.params[1]}"
         if op.op_code.name == "BranchBit":
+            if str(op.params[0]) == self.decompiler.performance_progress_list_var_name:
+                # `$PERFORMANCE_PROGRESS_LIST[b]` would compile to BranchPerformance, not back to BranchBit.
+                return self._if_header_as_operation(op)
             return f"{op.params[0]}[{op.params[1]}]"
         if op.op_code.name == "BranchDebug":
-            if op.params[0] > 0:  # type: ignore
-                return "debug"
-            else:
-                return "not debug"
+            return self._if_header_negatable(op, 0, "debug")
         if op.op_code.name == "BranchEdit":
-            if op.params[0] > 0:  # type: ignore
-                return "edit"
-            else:
-                return "not edit"
+            return self._if_header_negatable(op, 0, "edit")
         if op.op_code.name == "BranchExecuteSub":
             return f'BranchExecuteSub({", ".join([str(x) for x in op.params])})'
         if op.op_code.name == "BranchPerformance":
-            n = "not " if op.params[1] < 1 else ""  # type: ignore
-            return f"{n}{self.decompiler.performance_progress_list_var_name}[{op.params[0]}]"
+            return self._if_header_negatable(
+                op, 1, f"{self.decompiler.performance_progress_list_var_name}[{op.params[0]}]"
+            )
         if op.op_code.name == "BranchScenarioNow":
             return f"scn({op.params[0]}) == [{op.params[1]}, {op.params[2]}]"
         if op.op_code.name == "BranchScenarioNowAfter":
@@ -172,11 +170,20 @@ class IfWriteHandler(AbstractWriteHandler):
         if op.op_code.name == "BranchVariable":
             return f"{op.params[0]} {SsbOperator(op.params[1]).notation} value({op.params[2]})"  # type: ignore
         if op.op_code.name == "BranchVariation":
-            if op.params[0] > 0:  # type: ignore
-                return "variation"
-            else:
-                return "not variation"
+            return self._if_header_negatable(op, 0, "variation")
         raise ValueError(f"Unknown if-operation {op.op_code.name}")
+
+    @staticmethod
+    def _if_header_as_operation(op: SsbOperation) -> str:
+        return f'{op.op_code.name}({", ".join([str(x) for x in op.params])})'
+
+    def _if_header_negatable(self, op: SsbOperation, param_idx: int, positive_form: str) -> str:
+        """The keyword forms only stand for the values 1 (positive) and 0 (`not`); anything else is written as operation."""
+        if op.params[param_idx] == 1:
+            return positive_form
+        if op.params[param_idx] == 0:
+            return f"not {positive_form}"
+        return self._if_header_as_operation(op)
 
     def _build_else_if_chain(self, in_edge: Edge) -> Edge | None:
         """Starting from the in_edge try to build as many elseif constructs as possible."""
